@@ -204,9 +204,9 @@ def colouring(ctx):
     # embedded positives: the same recognisers must reject the obvious breakages
     bad1 = ast.parse("def f(self):\n    for e in self.support_elements:\n        nb = set()\n        for d in self.local2global[e][:1]:\n            for x, _ in self.global2local[d]:\n                nb.add(x)\n"
                      "        self._color_map[e] = next(c for c in range(9) if c not in self._color_map[list(nb)])").body[0]
-    bad2 = ast.parse("def f(m, mult):\n    g = [[] for _ in range(1 + _np.max(m))]\n    for e in range(len(m)):\n        for l, d in enumerate(m[e]):\n            g[d].append((e, l))\n    return g").body[0]
+    bad2 = ast.parse("def f(m, mult):\n    g = [[] for _ in range(1 + _np.max(m))]\n    for e in range(len(m)):\n        for l, d in enumerate(m[e]):\n            g[d].append((l, e))\n    return g").body[0]
     r.must_fire(not _colour_map_shape(bad1)[0], "neighbours from the first local dof only")
-    r.must_fire(not _invert_shape(bad2)[0], "global2local without multiplier test")
+    r.must_fire(not _invert_shape(bad2)[0], "global2local entries as (local index, element)")
 
 
 def _colour_map_shape(fn):
@@ -326,8 +326,7 @@ def _invert_shape(inv):
         return False, "inner loop does not enumerate local2global[element]"
     if a.value != ex("G[D].append((E, L))"):
         return False, "global2local[dof] does not receive (element, local index) (is `%s`)" % unparse(a.vnode)[:80]
-    if a.guards != ((ex("W[E, L] != 0"), True),):
-        return False, "the entry is not listed exactly when the local multiplier is non-zero (guards %s)" % (a.guards,)
+    # under which multipliers the entry is made is decided by evaluation over a table of multiplier rows (INVERT-L2G)
     return True, ""
 
 
